@@ -360,7 +360,10 @@ func C08(x *Idx) []V {
 					out = append(out, V{"C08", "start-of-running-launched", f("start of %s launched a new instance while inst %d was alive", p, liveBefore.Inst)})
 				}
 			} else {
-				if call.Err != "" {
+				// when the start-up loop of Run() was held, it creates its (pending) instances at a point
+				// the event log does not show: a refusal may then be about such an instance
+				loopHeld := scheduled(sp) && x.has(0, x.End, func(e world.Event) bool { return e.Kind == world.EvHold && e.Text == "run.loop" }) >= 0
+				if call.Err != "" && !loopHeld {
 					out = append(out, V{"C08", "start-refused", f("start of %s (status %q, nothing active) failed: %s", p, statusBefore, call.Err)})
 				}
 			}
